@@ -305,7 +305,24 @@ type c09Key struct {
 
 func c09Run(c *fx.Ctx) {
 	cfg := configuration.New()
-	for _, d := range c09Corpus() {
+	docs := c09Corpus()
+	// the reference family (forward/backward references in lists, maps, nodes, nested lists; marked ints, strings, lists,
+	// maps) with the typed templates that fit each document
+	// (list-shaped members only: an entry whose value is a still unresolved reference may be present or absent in a
+	// partial map, and fixed-size array templates cannot hold a prefix — neither is fixed by the statement)
+	for _, rd := range refFamily(c.Pick(2, 4)) {
+		if !strings.HasPrefix(rd.name, "list") && !strings.HasPrefix(rd.name, "nested") {
+			continue
+		}
+		tpls := []interface{}{nil}
+		for _, t := range rd.templates {
+			if t != nil && reflect.TypeOf(t).Kind() != reflect.Array {
+				tpls = append(tpls, t)
+			}
+		}
+		docs = append(docs, c09Doc{"references:" + familyClass(rd.name), rd.doc, tpls})
+	}
+	for _, d := range docs {
 		for _, f := range []codec.Format{codec.CBE, codec.CTE} {
 			if !c.Take() {
 				continue
